@@ -774,6 +774,8 @@ class Translator:
     def e_Compare(self, e, env):
         operands = [e.left] + list(e.comparators)
         if len(e.ops) == 1 and isinstance(e.ops[0], (ast.Is, ast.IsNot)):
+            if not (isinstance(e.comparators[0], ast.Constant) and e.comparators[0].value is None):
+                fail(e, "`is` / `is not` between values (object identity) is not supported")
             return self.tr_if(e, env, lambda en: Val("true", BOOL), lambda en: Val("false", BOOL), e)
         vals = [self.tr(x, env) for x in operands]
         if any(v.eff for v in vals) and len(vals) > 2:
@@ -2197,6 +2199,9 @@ def translate_unit(unit, externals):
                 tr.translate_function(f, True)
             except Fail as e:
                 f.failed, progress = str(e), True
+            except (RecursionError, KeyError, IndexError, AttributeError, TypeError, ValueError, AssertionError) as e:
+                # a construct that trips the translator itself: this function is not translated, the others are
+                f.failed, progress = f"translator error: {type(e).__name__}: {e}"[:200], True
     by_name = {f.coqname: f for f in list(externals.values()) + list(funcs.values())}
     # recursion: only self-recursion is supported
     for f in funcs.values():
@@ -2278,6 +2283,8 @@ def translate_unit(unit, externals):
                 body = tr.translate_function(f, f.eff)
             except Fail as e:
                 f.failed = str(e)
+            except (RecursionError, KeyError, IndexError, AttributeError, TypeError, ValueError, AssertionError) as e:
+                f.failed = f"translator error: {type(e).__name__}: {e}"[:200]
         if f.failed:
             out.append(f"(* {src}: NOT TRANSLATED — {f.failed.replace('*)', '* )')} *)\n")
             continue
